@@ -300,6 +300,25 @@ def r_merge(repo, tier):
                     out.report(MAPPER, f.dqual, "merged value ignores %s's own value" % own, s.lineno, "the value stored for a location of %s does not depend on that map's value %s" % (own, ownval))
                 if not other_ok:
                     out.report(MAPPER, f.dqual, "merged value ignores the other map", s.lineno, "the value stored for a location of %s does not depend on the other map's value for it (%s[...]) nor on top" % (own, other))
+    # every definition of the "other side" value inside a loop reads the OTHER map (or is top): a branch that reads the loop's own
+    # map again makes the merged value list one side twice
+    for k, loop in enumerate(loops[:2]):
+        own = norm(loop.iter)
+        other = [m_ for m_ in maps if m_ != own]
+        ownval = {e.id for e in loop.target.elts[1:]} if isinstance(loop.target, ast.Tuple) else set()
+        for a in ast.walk(loop):
+            if not (isinstance(a, ast.Assign) and isinstance(a.targets[0], ast.Name)):
+                continue
+            tgt = a.targets[0].id
+            if tgt in ownval or tgt in maps:
+                continue
+            reads = [x for x in ast.walk(a.value) if isinstance(x, ast.Subscript) and isinstance(x.value, ast.Name) and x.value.id in maps and isinstance(x.ctx, ast.Load)]
+            if not reads:
+                continue
+            wrong = [x for x in reads if x.value.id == own]
+            out.inst("%s::loop%d other-side %s" % (f.key, k + 1, norm(a)[:60]), {"loop_over": own, "definition": norm(a)[:90], "reads": sorted({x.value.id for x in reads})})
+            for x in wrong:
+                out.report(MAPPER, f.dqual, "loop over %s reads %s again: %s" % (own, own, norm(x)[:60]), x.lineno, "inside the loop over %s the value taken for the other side is read from %s itself (`%s`) instead of %s: the merged value lists one map's value twice and drops the other's" % (own, own, norm(x)[:70], other))
     # the other map is *read at a location* (m[loc]: locations are expressed in the input state), never *applied* to it
     # (m(x) evaluates x -- including the address -- in m's post-state)
     nreads = 0
